@@ -64,6 +64,11 @@ func init() {
 		if !ok {
 			panic(unsupported{"os.Open with symbolic name"})
 		}
+		if name == "/dev/null" {
+			if _, ok := in.vfs()[name]; !ok {
+				in.vfs()[name] = &vfile{name: name, content: "", exists: true} // the null device reads as an empty file
+			}
+		}
 		f, ok := in.vfs()[name]
 		if !ok || !f.exists {
 			e := in.pathError("open", name, "no such file or directory")
